@@ -174,7 +174,7 @@ def ivl_scripts(max_subs, max_len):
         if length == max_len:
             return
         for j in range(subs):
-            for t in (f"T{j}", f"T{j}q", f"Q{j}"):
+            for t in (f"T{j}", f"T{j}q", f"Q{j}", f"T{j}e", f"R{j}"):
                 rec(prefix + [t], subs, length + 1)
         if subs < max_subs:
             for r in "osc":
@@ -197,7 +197,7 @@ def run_interval(prop, tier, seed, ctx):
                 subs += 1
             else:
                 j = rnd.randrange(subs)
-                toks.append(rnd.choice([f"T{j}", f"T{j}", f"T{j}", f"T{j}q", f"Q{j}"]))
+                toks.append(rnd.choice([f"T{j}", f"T{j}", f"T{j}", f"T{j}", f"T{j}q", f"Q{j}", f"T{j}e", f"R{j}"]))
         scripts.append(" ".join(toks))
     scripts = sorted(set(scripts))
     n = 16
